@@ -91,6 +91,7 @@ func (s *JavaAPIListener) EnterAnnotation(ctx *parser.AnnotationContext) {
 
 	if !hasEnterClass {
 		buildBaseApiUrlString(annotationName, ctx)
+		return
 	}
 
 	notAPI := annotationName == "RequestMapping" || annotationName == "GetMapping" || annotationName == "PutMapping" || annotationName == "PostMapping" || annotationName == "DeleteMapping"
